@@ -1,7 +1,7 @@
 ---------------------------- MODULE Keywording_Trace ----------------------------
 (* Judges what the real match_packages did (drivers/c40_keywording.py):
    {tid, i, ev:"match", repo:{known, pkgs:[{name, ver, slot, kws:[[arch, st]]}]}, lines:[{op,name,ver,slot,written:[{t,arch,tilde}]}],
-    opts:{stable, cc, only_new, filter, allarches}, out:[{line, name, ver, kws}], exc}
+    opts:{stable, cc, only_new, filter, allarches}, out:[{line, name, ver, kws}], exc, crash}
    out[k].line = the line match_packages was working on when it yielded request k.            *)
 EXTENDS Keywording, TraceLib
 VARIABLE l
@@ -15,7 +15,8 @@ Judge(e) ==
   ELSE LET repo == RepoOf(e)  o == OptsOf(e)
        IN IF ~(\A p \in repo.pkgs : PkgOk(p)) \/ ~(SeqToSet(o.cc) \subseteq repo.known) \/ ~ObsOk(repo, e.lines, e.out)
           THEN {"OutsideDomain"}
-          ELSE Fails(repo, e.lines, o, e.out, e.exc)
+          \* an exception that is not one of the documented PkgcoreExceptions is a failure of the code
+          ELSE Fails(repo, e.lines, o, e.out, e.exc) \cup (IF e.crash = "" THEN {} ELSE {"Match_Raised"})
 TraceInit == l = 0
 TraceNext == /\ l < Len(Tr)
              /\ l' = l + 1
